@@ -70,6 +70,23 @@ cases = {
  "acc-from-rhs0": ([("  let mut lhs = factor(&trm.lhs, env, p)?;\n", "  let mut lhs = factor(&trm.rhs[0].1, env, p)?;\n")], ["term:accumulator"]),
  "rhs-not-evaluated": ([("    let rhs = factor(&rhs, env, p)?;\n", "    let rhs = cached(env)?;\n")], ["term:rhs-evaluated", "term:argument-order"]),
  "rhs-always-first": ([("    let rhs = factor(&rhs, env, p)?;\n", "    let rhs = factor(&trm.rhs[0].1, env, p)?;\n")], ["term:rhs-evaluated", "term:argument-order"]),
+ "take_while": ([(FOR, "  for (op, rhs) in trm.rhs.iter().take_while(|_| go()) {\n")], ["term:forward-iteration"]),
+ "take": ([(FOR, "  for (op, rhs) in trm.rhs.iter().take(3) {\n")], ["term:forward-iteration"]),
+ "filter": ([(FOR, "  for (op, rhs) in trm.rhs.iter().filter(|x| keep(x)) {\n")], ["term:forward-iteration"]),
+ "step_by": ([(FOR, "  for (op, rhs) in trm.rhs.iter().step_by(2) {\n")], ["term:forward-iteration"]),
+ "break-decided": ([("    lhs = res;\n", "    lhs = res;\n    if let (FormulaOperator::Logic(l), Value::Bool(d)) = (op, &lhs) { let d = *d.borrow(); match l { LogicOp::And if !d => break, LogicOp::Or if d => break, _ => (), } }\n")], ["term:consumes-every-pair"]),
+ "break-plain": ([("    lhs = res;\n", "    lhs = res;\n    if term_plan.len() > 3 { break; }\n")], ["term:consumes-every-pair"]),
+ "return-ok": ([("    lhs = res;\n", "    lhs = res;\n    if decided(&lhs) { return Ok(lhs); }\n")], ["term:consumes-every-pair"]),
+ "return-value-local": ([("    lhs = res;\n", "    lhs = res;\n    if decided(&lhs) { let early = Ok(lhs); return early; }\n")], ["term:consumes-every-pair"]),
+ "continue-skip": ([("    let rhs = factor(&rhs, env, p)?;\n", "    let rhs = factor(&rhs, env, p)?;\n    if decided(&lhs) { continue; }\n")], ["term:consumes-every-pair"]),
+ "continue-skip-arm": ([("      x => { return Err(x); }\n", "      C => continue,\n      x => { return Err(x); }\n")], ["term:consumes-every-pair"]),
+ "inner-loop-break": ([("    new_fxn.solve();\n", "    for k in checks() { if k.bad() { break; } }\n    let w = loop { if ready() { break 1; } };\n    new_fxn.solve();\n")], []),
+ "return-err-local": ([("      x => { return Err(x); }\n", "      x => { let e = Err(MechError::new(x).with_tokens(trm.tokens())); return e; }\n")], []),
+ "index-break": ([(FOR, "  for i in 0..trm.rhs.len() {\n    let (op, rhs) = &trm.rhs[i];\n"), ("    lhs = res;\n", "    lhs = res;\n    if decided(&lhs) { break; }\n")], ["term:consumes-every-pair"]),
+ "try_fold-skip": ([(FOR, "  let lhs = trm.rhs.iter().try_fold(lhs, |lhs, (op, rhs)| {\n    if decided(&lhs) { return Ok(lhs); }\n"), ("    lhs = res;\n  }\n", "    Ok(res)\n  })?;\n"), ("lhs = Value::Bool(Ref::new(value_in_kind(&lhs, kind, p))); continue;", "return Ok(Value::Bool(Ref::new(value_in_kind(&lhs, kind, p))));")], ["term:consumes-every-pair"]),
+ "try_fold-break": ([(FOR, "  let lhs = trm.rhs.iter().try_fold(lhs, |lhs, (op, rhs)| {\n"), ("    lhs = res;\n  }\n", "    if decided(&res) { return ControlFlow::Break(res); }\n    ControlFlow::Continue(res)\n  });\n"), ("lhs = Value::Bool(Ref::new(value_in_kind(&lhs, kind, p))); continue;", "return ControlFlow::Continue(Value::Bool(Ref::new(value_in_kind(&lhs, kind, p))));"), ("x => { return Err(x); }", "x => { todo() }")], ["term:consumes-every-pair", "term:accumulator-updated"]),
+ "try_fold-recovered": ([(FOR, "  let lhs = trm.rhs.iter().try_fold(lhs, |lhs, (op, rhs)| {\n"), ("    lhs = res;\n  }\n", "    if decided(&res) { return Err(Early(res)); }\n    Ok(res)\n  }).unwrap_or_else(|e| e.value());\n"), ("lhs = Value::Bool(Ref::new(value_in_kind(&lhs, kind, p))); continue;", "return Ok(Value::Bool(Ref::new(value_in_kind(&lhs, kind, p))));")], ["term:consumes-every-pair"]),
+ "fold-skip": ([(FOR, "  let lhs = trm.rhs.iter().fold(lhs, |lhs, (op, rhs)| {\n    if decided(&lhs) { return lhs; }\n"), ("    lhs = res;\n  }\n", "    res\n  });\n"), ("lhs = Value::Bool(Ref::new(value_in_kind(&lhs, kind, p))); continue;", "return Value::Bool(Ref::new(value_in_kind(&lhs, kind, p)));"), ("x => { return Err(x); }", "x => { todo() }"), ("    let rhs = factor(&rhs, env, p)?;", "    let rhs = factor(&rhs, env, p).unwrap();"), ("compile(&[lhs, rhs])?", "compile(&[lhs, rhs]).unwrap()")], ["term:consumes-every-pair"]),
  "try_fold": ([(FOR, "  let lhs = trm.rhs.iter().try_fold(lhs, |lhs, (op, rhs)| {\n"), ("    lhs = res;\n  }\n", "    Ok(res)\n  })?;\n"), ("lhs = Value::Bool(Ref::new(value_in_kind(&lhs, kind, p))); continue;", "return Ok(Value::Bool(Ref::new(value_in_kind(&lhs, kind, p))));")], []),
  "try_fold-noout": ([(FOR, "  let lhs = trm.rhs.iter().try_fold(lhs, |lhs, (op, rhs)| {\n"), ("    lhs = res;\n  }\n", "    Ok(rhs)\n  })?;\n"), ("lhs = Value::Bool(Ref::new(value_in_kind(&lhs, kind, p))); continue;", "return Ok(Value::Bool(Ref::new(value_in_kind(&lhs, kind, p))));")], ["term:accumulator-updated"]),
  "rfold": ([(FOR, "  let lhs = trm.rhs.iter().rfold(lhs, |lhs, (op, rhs)| {\n"), ("    lhs = res;\n  }\n", "    res\n  });\n")], ["term:loop-over-rhs"]),
@@ -84,6 +101,9 @@ cases2 = {
  "h-apply-let": ([(BODY, "    let next = apply(op, acc, value, &mut staged)?;\n    acc = next;\n")], []),
  "h-apply-swap": ([(BODY, "    acc = apply(op, value, acc, &mut staged)?;\n")], ["term:argument-order"]),
  "h-inline-rhs": ([("    let value = factor(operand, env, p)?;\n", ""), ("compile_operator(op, acc, value)", "compile_operator(op, acc, factor(operand, env, p)?)")], []),
+ "h-break": ([("    acc = step.out();\n", "    acc = step.out();\n    if decided(&acc) { break; }\n")], ["term:consumes-every-pair"]),
+ "h-return-errhelper": ([("    let step = compile_operator(op, acc, value)?;\n", "    if odd(op) { return unhandled(op); }\n    let step = compile_operator(op, acc, value)?;\n"), ("fn compile_operator(", "fn unhandled(op: &FormulaOperator) -> MResult<Value> { Err(MechError::new(op.clone())) }\nfn compile_operator(")], []),
+ "h-return-okhelper": ([("    let step = compile_operator(op, acc, value)?;\n", "    if odd(op) { return shortcut(op); }\n    let step = compile_operator(op, acc, value)?;\n"), ("fn compile_operator(", "fn shortcut(op: &FormulaOperator) -> MResult<Value> { Ok(Value::Empty) }\nfn compile_operator(")], ["term:consumes-every-pair"]),
  "h-noupdate": ([("    acc = step.out();\n", "    acc = Value::Empty;\n")], ["term:accumulator-updated"]),
 }
 paren_cases = {
